@@ -140,6 +140,55 @@ theorem C13_order_table_valid (r : ClassRow) (hr : r ∈ Gen.ClassRows.rows) (co
   simp only [Bool.and_eq_true] at h
   exact ⟨h.1, C13_order_partial r.ps r.members counts h.2 hi⟩
 
+/-! ## Extension elements (`exts` loops of the metadata builders, `samlp:Extensions` of the requests) -/
+
+/-- **Order part of validity with extension elements** (`tagsOfExt`: members first, extension elements
+    last): if the members of a class follow the content model up to its final unbounded particle
+    (`extCompat`), the instance respects the class's cardinalities, and every extension element is
+    admitted by that final particle, as many as it asks for (`extsOk`), the serialised child sequence
+    is accepted by the content model — any number of extension elements of any names. -/
+theorem C13_order_ext_partial (ps : List Particle) (ms : List Member) (counts : List Nat) (exts : List QN)
+    (hc : extCompat ps ms = true) (hi : instOk ms counts = true) (he : extsOk ps exts = true) :
+    specOrder ps (tagsOfExt ms counts exts) = true :=
+  (Re.matches_iff _ _).mpr (order_ext_lang ps ms counts exts hc hi he)
+
+/-- A container of extension elements (`md:Extensions`, `samlp:Extensions`) with at least one
+    element, all of them from a namespace other than the container's: valid content, whatever the
+    elements are and however many. -/
+theorem C13_ext_container_valid (r : ClassRow) (h : isExtContainer r = true) (exts : List QN)
+    (he : extsOk r.ps exts = true) : specOrder r.ps (tagsOfExt r.members [] exts) = true := by
+  unfold isExtContainer at h
+  simp only [Bool.and_eq_true, List.isEmpty_iff] at h
+  obtain ⟨hm, hp⟩ := h
+  split at hp
+  next t pc n hps =>
+    apply C13_order_ext_partial _ _ _ _ _ _ he
+    · rw [hps, hm]; rfl
+    · rw [hm]; rfl
+  · cases hp
+
+/-- … and with NO element in it the container is never valid content: a builder that creates the
+    container before it knows whether anything goes into it emits an invalid document. -/
+theorem C13_ext_container_empty_invalid (r : ClassRow) (h : isExtContainer r = true) :
+    specOrder r.ps (tagsOfExt r.members [] []) = false := by
+  unfold isExtContainer at h
+  simp only [Bool.and_eq_true, List.isEmpty_iff] at h
+  obtain ⟨hm, hp⟩ := h
+  split at hp
+  next t pc n hps =>
+    rw [hps, hm]
+    simp [specOrder, contentRe, Particle.re, Re.rep, Re.pow, Re.altL, Re.seqL, Re.matches, Re.nullable, tagsOfExt, tagsOf]
+  · cases hp
+
+/-- The regenerated tables have such containers (both `Extensions` classes), and for each of them
+    the row's particle list IS the content model the validator uses for that element. -/
+theorem C13_ext_table :
+    ((Gen.ClassRows.rows ++ Gen.ClassRows.excluded).filter isExtContainer).all
+      (fun r => particlesOf Gen.Schema.schema r.elem r.ps) = true ∧
+    2 ≤ ((Gen.ClassRows.rows ++ Gen.ClassRows.excluded).filter isExtContainer).length := by
+  decide +kernel
+
+
 /-- The property at full strength, for an emitter (the builders; NOT modelled): every emitted
     document is valid.  Not proved; decided per produced document by the correspondence run. -/
 def C13_full (S : Schema) {Input : Type} (emit : Input → XNode) : Prop :=
@@ -228,6 +277,21 @@ example : Lex.domainNameOk "-example.org".toList = false := by decide
 example : Lex.domainNameOk "example..org".toList = false := by decide
 example : Lex.domainNameOk "example.org:123456".toList = false := by decide
 
+
+-- extension elements: a row with one member and a final wildcard; two foreign elements pass, an element of the target
+-- namespace (13) or without namespace does not satisfy `extsOk`; the empty container is rejected
+private def psExt : List Particle := [.leaf [.el 7 0] 0 (some 1), .leaf [.any (.other 13) .lax] 0 none]
+private def msExt : List Member := [⟨⟨13, 7⟩, 0, some 1⟩]
+example : extCompat psExt msExt = true := by decide
+example : extsOk psExt [⟨1, 0⟩, ⟨5, 3⟩] = true := by decide
+example : specOrder psExt (tagsOfExt msExt [1] [⟨1, 0⟩, ⟨5, 3⟩]) = true := by decide
+example : extsOk psExt [⟨13, 9⟩] = false := by decide
+example : extsOk psExt [⟨0, 0⟩] = false := by decide
+example : specOrder psExt (tagsOfExt msExt [1] [⟨13, 9⟩]) = false := by decide
+private def rowExt : ClassRow := { label := "x.Extensions", elem := 1, ps := [.leaf [.any (.other 13) .lax] 1 none], members := [] }
+example : isExtContainer rowExt = true := by decide
+example : specOrder rowExt.ps (tagsOfExt rowExt.members [] [⟨1, 0⟩]) = true := by decide
+example : specOrder rowExt.ps (tagsOfExt rowExt.members [] []) = false := by decide
 
 -- validator branches the regenerated schema set cannot reach (it has no abstract element declaration, no fixed
 -- attribute value, and no dangling index): exercised on a three-declaration schema
